@@ -695,6 +695,7 @@ def _(i, st, a, c):
 @model(r'ibig::convert::<impl IBig>::to_f64')
 def _(i, st, a, c):
     d = _bigval(i, st, a[0])
+    st.events.append(('bigint_to_f64_arg', d))
     st.side.append((tuple(st.pc), b_and(cmp_('<=', d, 2 ** 53), cmp_('>=', d, -2 ** 53)), 'IBig::to_f64 exact only within 2^53'))
     return Fraction(d) if not is_z3(d) else z3.ToReal(d)
 
@@ -702,6 +703,7 @@ def _(i, st, a, c):
 @model(r'dashu_int::convert::<impl IBig>::to_f64')
 def _(i, st, a, c):
     d = _bigval(i, st, a[0])
+    st.events.append(('bigint_to_f64_arg', d))
     st.side.append((tuple(st.pc), b_and(cmp_('<=', d, 2 ** 53), cmp_('>=', d, -2 ** 53)), 'IBig::to_f64 exact only within 2^53'))
     return Agg('Approximation', (Fraction(d) if not is_z3(d) else z3.ToReal(d),))
 
@@ -860,6 +862,9 @@ def _(i, st, a, c): return Agg('Vec', _as_list(i, st, a[0]))
 def _(i, st, a, c):
     v = a[0]
     if isinstance(v, Agg) and v.tag in ('ListIter', 'TakeIter'):
+        return v
+    # `impl<I: Iterator> IntoIterator for I` is the identity: a crate-local struct with its own `Iterator::next`
+    if isinstance(v, Agg) and any(tr == 'Iterator' for _n, tr, _m in i.by_key.get((v.tag, 'next'), [])):
         return v
     raise Unsupported('into_iter of %r' % (getattr(v, 'tag', v),))
 
@@ -1229,3 +1234,43 @@ def _(i, st, a, c):
         i.panics.append((tuple(st.pc), 'UNDEFINED BEHAVIOUR: unwrap_unchecked on None', st))
         return []
     raise Unsupported('unwrap_unchecked on %r' % (v,))
+
+
+# ---------------------------------------------------------------------------- TypeId (ConvexCellDecomposition::new dispatches on the marker type)
+
+@model(r'TypeId::of')
+def _(i, st, a, c):
+    m = re.search(r'TypeId::of::<(.*)>$', c.strip())
+    if not m:
+        raise Unsupported('TypeId::of without a type argument: ' + c)
+    ty = m.group(1).strip()
+    ty = getattr(i, 'cur_generics', {}).get(ty, ty)
+    if re.fullmatch(r'[A-Z]\w?', ty):
+        raise Unsupported('TypeId::of::<%s>: type parameter not bound by the harness' % ty)
+    return Agg('TypeId', (ty.split('::')[-1],))
+
+
+@model(r'<TypeId as PartialEq>::eq', r'<TypeId as PartialEq<TypeId>>::eq')
+def _(i, st, a, c):
+    x, y = (i.deref_read(st, v) if isinstance(v, Ref) else v for v in a)
+    return x.items[0] == y.items[0]
+
+
+# ---------------------------------------------------------------------------- direct calls of closure values (`f(a, b)` on a local closure)
+
+@model(r'<\{closure@.*\} as Fn(Mut|Once)?>::call(_mut|_once)?', r'<&\{closure@.*\} as Fn(Mut|Once)?>::call(_mut|_once)?')
+def _(i, st, a, c):
+    args = a[1]
+    if not (isinstance(args, Agg) and args.tag == 'tuple'):
+        raise Unsupported('closure call: arguments are not a tuple: %r' % (args,))
+    return i.call_closure(st, a[0], list(args.items), getattr(i, 'cur_generics', None))
+
+
+# ---------------------------------------------------------------------------- derived PartialEq on fieldless enum values (Sign, Ordering, Dimensionality)
+
+@model(r'<(?:num_bigint::)?Sign as PartialEq>::eq', r'<(?:std::cmp::|core::cmp::)?Ordering as PartialEq>::eq', r'<Dimensionality as PartialEq>::eq')
+def _(i, st, a, c):
+    x, y = (i.deref_read(st, v) if isinstance(v, Ref) else v for v in a)
+    if isinstance(x, Var) and isinstance(y, Var) and not x.items and not y.items:
+        return x.name == y.name
+    raise Unsupported('enum PartialEq on %r, %r' % (x, y))
